@@ -278,6 +278,28 @@ func CheckEpochs(c *core.Ctx, d1 *lref.DAG, desc string, sealFrame int, kind str
 			return n, ""
 		}},
 	}
+	// Reset to the epoch the instance is already in (right after sealing, and after a part of the new epoch was
+	// processed): everything of that epoch must be forgotten and the events are accepted again from scratch
+	sameEpochReset := func(processed int) func() (*Node, string) {
+		return func() (*Node, string) {
+			n, msg := runPath(sealPathShort)
+			if msg != "" {
+				return nil, msg
+			}
+			for x := 0; x < processed && x < len(evs2); x++ { // event indices are parents-first
+				if err, crit := n.Process(evs2[x]); err != nil || crit != "" {
+					return nil, fmt.Sprintf("processing n%d before the reset failed: %v %s", x, err, crit)
+				}
+			}
+			if err, crit := n.Reset(idx.Epoch(d1.Epoch)+1, v2); err != nil || crit != "" {
+				return nil, fmt.Sprintf("Reset to the current epoch failed: %v %s", err, crit)
+			}
+			n.Blocks = nil // blocks of the abandoned attempt are not part of the comparison
+			return n, ""
+		}
+	}
+	starts = append(starts, start{"sealed(shortest path), then reset to the same epoch", sameEpochReset(0)},
+		start{"sealed(shortest path), half of the new epoch processed, then reset to the same epoch", sameEpochReset((len(evs2) + 1) / 2)})
 	if rep["restart"] {
 		restarted := func(mk func() (*Node, string)) func() (*Node, string) {
 			return func() (*Node, string) {
@@ -294,7 +316,8 @@ func CheckEpochs(c *core.Ctx, d1 *lref.DAG, desc string, sealFrame int, kind str
 		}
 		starts = append(starts, start{"sealed(shortest path), then restarted", restarted(starts[0].mk)},
 			start{"sealed(longest path), then restarted", restarted(starts[1].mk)},
-			start{"reset-from-mid-epoch, then restarted", restarted(starts[3].mk)})
+			start{"reset-from-mid-epoch, then restarted", restarted(starts[3].mk)},
+			start{"half of the new epoch processed, reset to the same epoch, then restarted", restarted(starts[5].mk)})
 	}
 	maxFrame2 := 0
 	for _, e := range d2.Events {
